@@ -13,6 +13,7 @@ import (
 	"bytes"
 	"encoding/json"
 	"fmt"
+	"runtime/debug"
 	"sort"
 	"strconv"
 	"strings"
@@ -169,7 +170,7 @@ func c07Apply(m Map, o c07Op) Map {
 type c07Dumper struct {
 	buf    []byte
 	shapes map[uint64]string
-	shape [8]uint8 // per trie level: 1 bitmap, 2 array, 4 collision, 8 single-entry bitmap, 16 collision with 1 entry, 32 collision >=3
+	shape  [8]uint8 // per trie level: 1 bitmap, 2 array, 4 collision, 8 single-entry bitmap, 16 collision with 1 entry, 32 collision >=3
 }
 
 func (d *c07Dumper) val(v any) {
@@ -881,49 +882,64 @@ func c07KV(keys []int, vals ...uint8) []c07Op {
 func c07Scenarios(c *vk.Ctx) []c07Scenario {
 	thorough := c.Thorough()
 	var scs []c07Scenario
-	// E: from the empty map, all named keys
-	keys := []int{c07A0, c07A1, c07P1, c07P2, c07P6, c07C6, c07D0, c07NilID}
+	empty := []c07Base{{name: "empty"}}
 	if thorough {
-		keys = []int{c07A0, c07A1, c07A2, c07P1, c07P2, c07P5, c07P6, c07Q6, c07C6, c07D0, c07NilID}
+		// E: from the empty map, every named key with both values
+		keys := []int{c07A0, c07A1, c07A2, c07P1, c07P2, c07P5, c07P6, c07Q6, c07C6, c07D0, c07NilID}
+		scs = append(scs, c07Scenario{name: "E", bases: empty, ops: c07KV(keys, 1, 2, 0)})
+	} else {
+		// E1: shared hash prefixes of every length; E2: collision groups at the deepest level
+		scs = append(scs, c07Scenario{name: "E1", bases: empty, ops: c07KV([]int{c07A0, c07A1, c07P1, c07P2, c07P5, c07P6, c07D0, c07NilID}, 1, 2, 0)})
+		scs = append(scs, c07Scenario{name: "E2", bases: empty, ops: c07KV([]int{c07A0, c07A1, c07A2, c07P6, c07C6, c07Q6, c07NilID}, 1, 2, 0)})
 	}
-	scs = append(scs, c07Scenario{name: "E", bases: []c07Base{{name: "empty"}}, ops: c07KV(keys, 1, 2, 0)})
-	// F<r>: a node at trie level r on the path of B is loaded with filler keys
-	for ri, r := range c07FillLevels {
-		var bases []c07Base
-		load := func(n int) []c07Op {
-			var ops []c07Op
-			for j := 0; j < n; j++ {
-				ops = append(ops, c07Op{c07Fill(ri, j), 1})
-			}
-			return ops
+	load := func(ri, n int) []c07Op {
+		var ops []c07Op
+		for j := 0; j < n; j++ {
+			ops = append(ops, c07Op{c07Fill(ri, j), 1})
 		}
-		shrunk := func(left int) []c07Op {
-			ops := load(17)
-			for j := 1; j <= 17-left; j++ {
-				ops = append(ops, c07Op{c07Fill(ri, j), 0})
-			}
-			return ops
+		return ops
+	}
+	shrunk := func(ri, left int) []c07Op {
+		ops := load(ri, 17)
+		for j := 1; j <= 17-left; j++ {
+			ops = append(ops, c07Op{c07Fill(ri, j), 0})
 		}
-		bases = append(bases, c07Base{"L15", load(15)}, c07Base{"S9", shrunk(9)})
-		if thorough {
-			bases = append(bases, c07Base{"L16", load(16)}, c07Base{"L17", load(17)}, c07Base{"S8", shrunk(8)})
-		}
-		var ks []int
-		switch r {
-		case 0:
-			ks = []int{c07A0, c07A1, c07P1, c07D0}
-		case 1:
-			ks = []int{c07A0, c07A1, c07P1, c07P2, c07D0}
-		case 5:
-			ks = []int{c07A0, c07A1, c07P5, c07P6, c07P2}
-		}
-		if thorough {
-			ks = append(ks, c07C6)
-		}
+		return ops
+	}
+	named := map[int][]int{
+		0: {c07A0, c07A1, c07P1, c07D0},
+		1: {c07A0, c07A1, c07P1, c07P2, c07D0},
+		5: {c07A0, c07A1, c07P5, c07P6, c07P2},
+	}
+	fillOps := func(ri int, ks []int) []c07Op {
 		ops := c07KV(ks, 1, 0)
 		ops = append(ops, c07Op{c07A0, 2}, c07Op{c07Fill(ri, 0), 2})
-		ops = append(ops, c07KV([]int{c07Fill(ri, 0), c07Fill(ri, 16), c07NilID}, 1, 0)...)
-		scs = append(scs, c07Scenario{name: fmt.Sprintf("F%d", r), bases: bases, ops: ops})
+		if thorough {
+			ops = append(ops, c07Op{c07A1, 2})
+		}
+		return append(ops, c07KV([]int{c07Fill(ri, 0), c07Fill(ri, 16), c07NilID}, 1, 0)...)
+	}
+	// F<r>: the node at trie level r on the path of B is loaded with filler keys
+	for ri, r := range c07FillLevels {
+		bases := []c07Base{{"L15", load(ri, 15)}, {"S9", shrunk(ri, 9)}}
+		ks := named[r]
+		if thorough {
+			bases = append(bases, c07Base{"L16", load(ri, 16)}, c07Base{"L17", load(ri, 17)}, c07Base{"S8", shrunk(ri, 8)})
+			ks = append(append([]int{}, ks...), c07C6)
+		}
+		scs = append(scs, c07Scenario{name: fmt.Sprintf("F%d", r), bases: bases, ops: fillOps(ri, ks)})
+	}
+	if thorough {
+		// F01: the root is an array node (17 level-0 fillers) and its child on the path of B is loaded too
+		bases := []c07Base{
+			{"L17/L15", append(load(0, 17), load(1, 15)...)},
+			{"L17/S9", append(load(0, 17), shrunk(1, 9)...)},
+			{"S9/L15", append(shrunk(0, 9), load(1, 15)...)},
+			{"S9/S9", append(shrunk(0, 9), shrunk(1, 9)...)},
+		}
+		ops := fillOps(1, named[1])
+		ops = append(ops, c07KV([]int{c07Fill(0, 0)}, 1, 0)...)
+		scs = append(scs, c07Scenario{name: "F01", bases: bases, ops: ops})
 	}
 	return scs
 }
@@ -944,7 +960,9 @@ func TestVerifC07(t *testing.T) {
 		c.Assume("the state key is the full structure reachable from the map value, so structurally equal maps have equal futures (eq/hash functions are pure tables)",
 			"values are the ints 1 and 2; keys are ints with a controllable hash or the nil key; the vals.Equal/vals.Hash instantiation is covered by C08",
 			"MarshalJSON of a map containing the nil key is not judged (encoding/json has no such case)")
-		maxStates := vk.Pick(c, 3_000_000, 12_000_000)
+		// every version is retained, so keep the garbage of discarded duplicates small
+		defer debug.SetGCPercent(debug.SetGCPercent(30))
+		maxStates := vk.Pick(c, 400_000, 3_000_000)
 		var states, trans, replayed, rechecked int64
 		for i := range scs {
 			s := &c07Search{c: c, sc: &scs[i]}
